@@ -20,8 +20,9 @@ SPEC = {
                   "ready event (C20_ready); isTerminal s <-> s <> SIGHUP from the extracted body; serve() makes at most 40 "
                   "attempts. The model is tied to the real Server by runs of Serve under testing/synctest with scripted tasks.",
     "level_note": "Trusted: Coq kernel + vm_compute; goextract; the Go driver (scripted tasks, recording logger and sdnotify writer "
-                  "injected through the Notifier's only field). Partial: liveness (Serve eventually returns) is proved as a "
-                  "progress lemma for cooperative tasks, not under a fairness assumption; interleavings are at the granularity "
+                  "injected through the Notifier's only field). Liveness: every execution of the LTS (leaving aside repeated signal deliveries and repeated "
+                  "observations) is bounded by a measure and, once the context is cancelled, never stuck before Serve has returned "
+                  "(C20_serve_bounded, C20_serve_progress); that each task returns once cancelled is the tasks' own guarantee (C08 / C10); interleavings are at the granularity "
                   "of the LTS labels; the set/cancel order is decided by the extracted-order lemma.",
     "drivers": [
         {"pkg": "internal/corerad", "test": "TestVerifC20", "newgo": True, "timeout": 1200},
